@@ -58,3 +58,95 @@ Contract(
         'forall(0, len(i0s), lambda k: 0 <= i0s[k] and i0s[k] <= ite(finite, L - n, L))',
     ],
 )
+
+
+# ---------------------------------------------------------------------------------------------------------------
+# C18 / C13: the iteration loop of IterativeSweeps.run (DMRG, VUMPS, variational compression): a checkpoint - where a simulation
+# saves and measures - is emitted between two iterations *of this call*, never before the first one (a resumed engine, whose sweep
+# counter is not zero, would otherwise repeat the measurement of the checkpoint it was resumed from) and never after the last;
+# the result is that of the last iteration (of pre_run_initialize if none ran); post_run_cleanup runs exactly once, at the end.
+# Ghost: counters `iters`, `emits`, `cleanups`; stopping_criterion is an arbitrary predicate (termination is not claimed).
+from pyvc.contract import Opaque as _Opaque
+from pyvc.interp import Builtin as _Builtin
+from pyvc.values import Opq as _Opq, U as _U, fresh_name as _fresh_name
+
+
+def _run_setup(I, env):
+    g = {'iters': z3.IntVal(0), 'emits': z3.IntVal(0), 'cleanups': z3.IntVal(0), 'last': _Opq(z3.Const('pre_run_result', _U)),
+         'pre': None}
+    g['pre'] = g['last']
+    I.ghost['__env__'] = g
+
+    def emit(I_, *a, **k):
+        gg = I_.ghost['__env__']
+        I_.oblige('checkpoint-only-between-iterations', z3.And(gg['iters'] >= 1, gg['emits'] == gg['iters'] - 1, gg['cleanups'] == 0),
+                  {'clause': 'checkpoint.emit() is called only after an iteration of this run() call, once per iteration'})
+        gg['emits'] = gg['emits'] + 1
+        return []
+    env['self'].attrs['checkpoint'] = SObj('GhostEventHandler', None, {'emit': _Builtin(emit, 'checkpoint.emit')})
+
+
+def _stop(I, f, args, kwargs):
+    return z3.Bool(_fresh_name('stop'))
+
+
+def _iteration(I, f, args, kwargs):
+    g = I.ghost['__env__']
+    I.oblige('no-iteration-after-cleanup', g['cleanups'] == 0, {'clause': 'run_iteration() is not called after post_run_cleanup()'})
+    g['iters'] = g['iters'] + 1
+    g['last'] = _Opq(z3.Const(_fresh_name('iteration_result'), _U))
+    return g['last']
+
+
+def _cleanup(I, f, args, kwargs):
+    g = I.ghost['__env__']
+    g['cleanups'] = g['cleanups'] + 1
+    return None
+
+
+
+def _hunt_run():
+    """witness on a real engine: two-site DMRG run for 2 sweeps, then continued (what a resumed simulation does): the event
+    sequence of the second run() call must start with an iteration, checkpoints only between iterations"""
+    import warnings
+    warnings.simplefilter('ignore')
+    from tenpy.models.xxz_chain import XXZChain
+    from tenpy.networks.mps import MPS
+    from tenpy.algorithms import dmrg
+    M = XXZChain({'L': 4, 'Jxx': 1., 'Jz': 1.3, 'hz': 0.05, 'bc_MPS': 'finite'})
+    psi = MPS.from_product_state(M.lat.mps_sites(), ['up', 'down'] * 2, 'finite')
+    eng = dmrg.TwoSiteDMRGEngine(psi, M, {'max_sweeps': 2, 'min_sweeps': 2, 'N_sweeps_check': 1, 'mixer': False, 'trunc_params': {'chi_max': 8}})
+    log = []
+    eng.checkpoint.connect(lambda algorithm: log.append('checkpoint'))
+    orig = eng.run_iteration
+
+    def run_iteration():
+        log.append('iteration')
+        return orig()
+    eng.run_iteration = run_iteration
+    for call, max_sweeps in ((1, 2), (2, 5)):
+        del log[:]
+        eng.options['max_sweeps'] = eng.options['min_sweeps'] = max_sweeps
+        eng.run()
+        ok = (not log or log[0] == 'iteration') and all(a != b for a, b in zip(log, log[1:])) and (not log or log[-1] == 'iteration')
+        if not ok:
+            return {'input': {'engine': 'TwoSiteDMRGEngine on XXZChain(L=4)', 'run() call': call, 'sweeps before the call': 0 if call == 1 else 2,
+                              'max_sweeps': max_sweeps},
+                    'observed': 'event sequence of this call: ' + ' '.join(log)}
+    return None
+
+
+Contract(
+    target=f'{MC}::IterativeSweeps.run', props=['C18', 'C13'], name='IterativeSweeps.run',
+    params={'self': Obj('IterativeSweeps', MC, {'sweeps': Int(), 'shelve': Bool(), 'trunc_err_list': _Opaque(), 'options': _Opaque()})},
+    setup=_run_setup, hunt=_hunt_run,
+    hooks={f'{MC}::IterativeSweeps.stopping_criterion': _stop, f'{MC}::IterativeSweeps.run_iteration': _iteration,
+           f'{MC}::IterativeSweeps.pre_run_initialize': lambda I, f, a, k: I.ghost['__env__']['pre'],
+           f'{MC}::IterativeSweeps.status_update': lambda I, f, a, k: None,
+           f'{MC}::IterativeSweeps.post_run_cleanup': _cleanup,
+           'import:tenpy.tools.params.consistency_check': lambda I, *a, **k: None, 'global:consistency_check': lambda I, *a, **k: None,
+           'module:numpy.max': lambda I, x: _Opq(z3.Const('max_trunc_err', _U))},
+    ensures=['emits == ite(iters >= 1, iters - 1, 0)', 'cleanups == 1', 'result == last'],
+    loops={0: {'inv': ['emits == ite(iters >= 1, iters - 1, 0) and cleanups == 0 and iters >= 0', 'is_first_sweep == (iters == 0)', 'result == last'],
+               'ghost_mut': ['iters', 'emits', 'cleanups', 'last']}},
+)
